@@ -116,6 +116,7 @@ func init() {
 		return normStr(append(symstr{}, buf...))
 	}
 	externals["strings.Clone"] = func(fr *frame, args []value) value { return args[0] }
+	externals["internal/stringslite.Clone"] = func(fr *frame, args []value) value { return args[0] }
 	externals["unique.Make[string]"] = nil
 	delete(externals, "unique.Make[string]")
 
